@@ -70,26 +70,27 @@ type simServe struct {
 }
 
 type simCluster struct {
-	mu        sync.Mutex
-	regions   []*simRegion
-	down      map[string]bool
-	silent    map[string]bool
-	metaAddr  string
-	metaSil   bool
-	zkErr     int32 // >0: LocateResource fails that many times
-	zkSilent  int32
-	zkCalls   int32
-	conns     []*simConn
-	serves    []simServe
-	seq       int
-	nextID    uint64
-	closedAt  int // seq at which the client's Close returned (0 = not yet)
-	hold      map[string]chan struct{}
-	dialHold  chan struct{}
-	zkHold    chan struct{}            // LocateResource waits for it to be closed
-	slowNew   time.Duration            // the connection factory takes this long
-	scanRows  bool                     // user-table scans return one row per request and keep the region scanner open
-	probeHold map[string]chan struct{} // region probes to this address are answered (ok) only when released
+	mu          sync.Mutex
+	regions     []*simRegion
+	down        map[string]bool
+	silent      map[string]bool
+	metaAddr    string
+	metaSil     bool
+	metaSwallow int   // the next n meta scans are never answered (a slow / restarting meta server)
+	zkErr       int32 // >0: LocateResource fails that many times
+	zkSilent    int32
+	zkCalls     int32
+	conns       []*simConn
+	serves      []simServe
+	seq         int
+	nextID      uint64
+	closedAt    int // seq at which the client's Close returned (0 = not yet)
+	hold        map[string]chan struct{}
+	dialHold    chan struct{}
+	zkHold      chan struct{}            // LocateResource waits for it to be closed
+	slowNew     time.Duration            // the connection factory takes this long
+	scanRows    bool                     // user-table scans return one row per request and keep the region scanner open
+	probeHold   map[string]chan struct{} // region probes to this address are answered (ok) only when released
 }
 
 func newSimCluster() *simCluster {
@@ -260,7 +261,10 @@ func (s *simConn) serve(call hrpc.Call) {
 				deliver(nil, excErr("nsre"))
 				return
 			}
-			if c.metaSil {
+			if c.metaSil || c.metaSwallow > 0 {
+				if c.metaSwallow > 0 {
+					c.metaSwallow--
+				}
 				s.parked = append(s.parked, call)
 				finish("silent")
 				return
